@@ -8,7 +8,7 @@ import vlib, gen_lex
 from vlib import Infra, Verdict, log
 from props import lexer as L
 
-EXTRA_PATTERNS = ['"', "\\\\", "\\\"a\\\"", "[\\\"']", "é+", "a\\.b", "\\x{1F600}", "<[^>]*>", "\\\\n", "`", "[\\]\\[]", " ", "(?i)É", "\\$\\^", "a&b", "\\u00e9"[1:], "\U0001F600+", "[\U0001F600-\U0001F64F]a", "\x1b\\[", "a\x07", "\x0bb", "\x7f", "c\x01"]
+EXTRA_PATTERNS = ['"', "\\\\", "\\\"a\\\"", "[\\\"']", "é+", "a\\.b", "\\x{1F600}", "<[^>]*>", "\\\\n", "`", "[\\]\\[]", " ", "(?i)É", "\\$\\^", "a&b", "\\u00e9"[1:], "\U0001F600+", "[\U0001F600-\U0001F64F]a", "\x1b\\[", "a\x07", "\x0bb", "\x7f", "c\x01", "\\p{L}+", "\\pN", "\\P{Lu}x", "[\\p{Greek}\\d]"]
 
 
 def metachar_cases():
